@@ -674,6 +674,13 @@ static void classify_death(int status, const std::string& err_text, std::string&
     for (auto& ch : k)
       if (ch == ' ') ch = '_';
     kind = "tsan:" + k;
+    // a wild access is a use-after-free report or a SEGV depending on what the freed block holds by then
+    if (k == "heap-use-after-free" || k == "double-free" || k == "bad_free") kind = "tsan:memory-error";
+  } else if ((p = err_text.find("ERROR: ThreadSanitizer: ")) != std::string::npos) {
+    size_t q = p + strlen("ERROR: ThreadSanitizer: ");
+    size_t e = err_text.find_first_of(" \n", q);
+    std::string k = err_text.substr(q, e == std::string::npos ? std::string::npos : e - q);
+    kind = (k == "SEGV" || k == "BUS" || k == "ILL") ? std::string("tsan:memory-error") : "tsan:" + k;
   } else if ((p = err_text.find("terminate called")) != std::string::npos) {
     kind = "terminate";
   } else if (WIFSIGNALED(status)) {
